@@ -152,6 +152,7 @@ func init() {
 		return []Job{
 			{Engine: "conc", Backends: []string{"mem-sw-livecur", "mem-sw-livecur", "mem-opt-snapcur", "mem-opt-snapcur", "mem-opt-livecur", "mem-sw-snapcur"}, Quick: 6000, Thorough: 300000},
 			{Engine: "conc", Backends: []string{"bbolt", "badger-mem", "badger-mem"}, Quick: 600, Thorough: 30000},
+			{Engine: "conc", Backends: []string{"bbolt", "badger-mem"}, Quick: 120, Thorough: 4000, Params: map[string]string{"race": "1"}},
 		}
 	}
 }
